@@ -24,27 +24,6 @@ theorem C17_gradient1_dual2 (d : Dual2 α) (vs : List String) (hd : d.WF) (hv : 
   rw [this, gradient1_spec _ vs ⟨hd.1, hd.2.1⟩ hv]
   rfl
 
-theorem den2_idx (d : Dual2 α) (h1 : d.vars.Nodup) (i j : Nat) (hi : i < d.vars.length)
-    (hj : j < d.vars.length) :
-    Dual2.den2 d d.vars[i] d.vars[j] = (d.dual2.getD i []).getD j 0 := by
-  unfold Dual2.den2 lookup2OrZero
-  rw [idxOf_nodup d.vars h1 i hi, idxOf_nodup d.vars h1 j hj]
-
-theorem dual2_eq_map_den2 (d : Dual2 α) (h : d.WF) :
-    d.dual2 = d.vars.map (fun v => d.vars.map (fun w => Dual2.den2 d v w)) := by
-  obtain ⟨h1, _, h3, h4⟩ := h
-  apply List.ext_getElem (by simp [h3])
-  intro i hi1 hi2
-  have hi : i < d.vars.length := by simpa using hi2
-  rw [List.getElem_map]
-  have hrow : (d.dual2[i]).length = d.vars.length := h4 _ (List.getElem_mem hi1)
-  apply List.ext_getElem (by simp [hrow])
-  intro j hj1 hj2
-  have hj : j < d.vars.length := by simpa using hj2
-  rw [List.getElem_map, den2_idx d h1 i j hi hj]
-  simp only [List.getD_eq_getElem?_getD, List.getElem?_eq_getElem hi1, Option.getD_some,
-    List.getElem?_eq_getElem hj1]
-
 /-- The Hessian read-back: entry (i, j) is twice the stored second derivative for the pair of names
 (`vs[i]`, `vs[j]`), in the order asked for, on both code paths. -/
 theorem C17_gradient2 (d : Dual2 α) (vs : List String) (hd : d.WF) (hv : vs.Nodup) :
@@ -64,7 +43,7 @@ theorem C17_gradient2 (d : Dual2 α) (vs : List String) (hd : d.WF) (hv : vs.Nod
       repeat' split at hc
       all_goals simp_all
     simp only
-    conv => lhs; rw [dual2_eq_map_den2 d hd]
+    conv => lhs; rw [Dual2.dual2_eq_map_den2 d hd]
     rw [← this]
     simp [mscaleL, vscaleL, List.map_map, Function.comp_def]
   | superset => exact key
